@@ -1,5 +1,7 @@
 /-
-C07 — proof of the export/parse round trip (`ExportTx` framing read back by `ReplicateTx`).
+C07 — proof of the export/parse round trip (`ExportTx` framing read back by `ReplicateTx`), and of
+the totality of the parser: no run-time panic on any byte string; the inputs on which the framing
+panicked before its repair are rejected with an error.
 -/
 import ImmuModel.Tx.Export
 import ImmuModel.Tx.Proofs.HdrRT
@@ -145,6 +147,170 @@ theorem parsed_wf_facts (x : Parsed) (hw : x.wf = true) :
   show x.hdr.nentries.toNat = x.entries.length
   omega
 
+
+-- ------------------------------------------------------------------ the parser has no run-time panic
+theorem kvmdLoop_noPanic : ∀ (fuel : Nat) (r : Bytes) (md : KVMd), r.length ≤ fuel →
+    kvmdLoop fuel r md ≠ .error .panic := by
+  intro fuel
+  induction fuel with
+  | zero =>
+    intro r md h
+    cases r with
+    | nil => simp
+    | cons a t => simp at h
+  | succ f ih =>
+    intro r md h
+    cases r with
+    | nil => simp
+    | cons code t =>
+      simp only [List.length_cons] at h
+      unfold kvmdLoop
+      split
+      · exact ih _ _ (by omega)
+      · split
+        · split
+          · simp
+          · exact ih _ _ (by simp only [List.length_drop]; omega)
+        · split
+          · exact ih _ _ (by omega)
+          · simp
+
+theorem kvmdReadFrom_noPanic (b : Bytes) : kvmdReadFrom b ≠ .error .panic := by
+  unfold kvmdReadFrom
+  split
+  · simp
+  · exact kvmdLoop_noPanic _ _ _ (Nat.le_refl _)
+
+theorem ofFault_panic {f : Fault} (h : XErr.ofFault f = .panic) : f = .panic := by
+  cases f <;> simp [XErr.ofFault] at h ⊢
+
+theorem parseEntries_noPanic : ∀ (n : Nat) (r : Bytes), parseEntries n r ≠ .error .panic := by
+  intro n
+  induction n with
+  | zero => intro r; simp [parseEntries]
+  | succ n ih =>
+    intro r h
+    unfold parseEntries at h
+    simp only at h
+    split at h
+    · cases h
+    · split at h
+      · cases h
+      · split at h
+        · cases h
+        · split at h
+          · rename_i e hmd
+            cases h
+            split at hmd
+            · split at hmd
+              · rename_i f hf
+                injection hmd with hmd
+                have := ofFault_panic hmd
+                subst this
+                exact kvmdReadFrom_noPanic _ hf
+              · cases hmd
+            · cases hmd
+          · split at h
+            · cases h
+            · split at h
+              · cases h
+              · split at h
+                · rename_i e he
+                  cases h
+                  exact ih _ he
+                · cases h
+
+theorem parseTrailer_noPanic (r : Bytes) : parseTrailer r ≠ .error .panic := by
+  unfold parseTrailer
+  repeat (first | split | simp)
+
+theorem parseExported_noPanic (b : Bytes) : parseExported b ≠ .error .panic := by
+  intro h
+  unfold parseExported at h
+  simp only at h
+  split at h
+  · cases h
+  · split at h
+    · cases h
+    · split at h
+      · cases h
+      · split at h
+        · rename_i f hf
+          injection h with h
+          have := ofFault_panic h
+          subst this
+          exact hdrReadFrom_noPanic _ hf
+        · split at h
+          · rename_i e he
+            cases h
+            exact parseEntries_noPanic _ _ he
+          · split at h
+            · rename_i e he
+              cases h
+              exact parseTrailer_noPanic _ he
+            · cases h
+
+/-- the frame around the entries, whatever follows the header -/
+theorem parseExported_frame_gen (hb rest : Bytes) (hdr : TxHdr)
+    (hL : hb.length < 4294967296) (hr : hdrReadFrom hb = .ok hdr) :
+    parseExported (beN 4 hb.length ++ (hb ++ rest)) =
+      (match parseEntries hdr.nentries.toNat rest with
+       | .error e => .error e
+       | .ok (es, r) =>
+         match parseTrailer r with
+         | .error e => .error e
+         | .ok t => .ok { hdr := hdr, entries := es, truncated := t }) := by
+  have vl : beVal (beN 4 hb.length) = hb.length := beVal_beN_small (by simpa using hL)
+  have l4 : (beN 4 hb.length).length = 4 := beN_length _ _
+  have c0 : ¬ ((beN 4 hb.length ++ (hb ++ rest)).length = 0) := by simp
+  have c1 : ¬ ((beN 4 hb.length ++ (hb ++ rest)).length < 4) := by simp
+  have c2 : ¬ ((hb ++ rest).length < hb.length) := by simp
+  simp only [parseExported, e4, c0, c1, if_false, take_app l4, drop_app l4, vl, c2,
+    List.take_left, List.drop_left, hr]
+  cases parseEntries hdr.nentries.toNat rest with
+  | error e => rfl
+  | ok p => cases p; rfl
+
+/-- well-framed entries followed by anything: the loop reads them and goes on with the rest -/
+theorem parseEntries_append (es : List PEntry) (hes : es.all PEntry.wf = true) (n : Nat) (tail : Bytes) :
+    parseEntries (es.length + n) (es.flatMap entryBytes ++ tail) =
+      (match parseEntries n tail with
+       | .error x => .error x
+       | .ok (es', r) => .ok (es ++ es', r)) := by
+  induction es with
+  | nil =>
+    simp only [List.length_nil, Nat.zero_add, List.flatMap_nil, List.nil_append]
+    cases parseEntries n tail with
+    | error e => rfl
+    | ok p => cases p; rfl
+  | cons e es ih =>
+    simp only [List.all_cons, Bool.and_eq_true] at hes
+    simp only [List.flatMap_cons, List.length_cons, List.append_assoc]
+    rw [show es.length + 1 + n = (es.length + n) + 1 by omega, parseEntries_entry _ e hes.1, ih hes.2]
+    cases parseEntries n tail with
+    | error e => rfl
+    | ok p => cases p; rfl
+
+/-- an entry with kv-metadata cut inside its value-length field (fewer than `lszSize` bytes left
+after the metadata): `ErrIllegalArguments` — from the new check before `vLen`, or already from the
+check before the key when metadata and rest together are shorter than `lszSize` -/
+theorem parseEntries_cut_vLen (n : Nat) (key mdb cut : Bytes) (m : KVMd)
+    (hk : key.length < 65536) (hm : mdb.length < 65536) (hpos : 0 < mdb.length)
+    (hread : kvmdReadFrom mdb = .ok m) (hc : cut.length < 4) :
+    parseEntries (n + 1) (beN 2 key.length ++ (key ++ (beN 2 mdb.length ++ (mdb ++ cut)))) = .error .illegal := by
+  have vk : beVal (beN 2 key.length) = key.length := beVal_beN_small (by simpa using hk)
+  have vm : beVal (beN 2 mdb.length) = mdb.length := beVal_beN_small (by simpa using hm)
+  have l2k : (beN 2 key.length).length = 2 := beN_length _ _
+  have l2m : (beN 2 mdb.length).length = 2 := beN_length _ _
+  by_cases c1 : (beN 2 key.length ++ (key ++ (beN 2 mdb.length ++ (mdb ++ cut)))).length < 2 * 2 + 4
+  · simp only [parseEntries, e2, e4, c1, if_true]
+  · by_cases c2 : (key ++ (beN 2 mdb.length ++ (mdb ++ cut))).length < 2 + 4 + key.length
+    · simp only [parseEntries, e2, e4, c1, if_false, take_app l2k, drop_app l2k, vk, c2, if_true]
+    · have c3 : ¬ ((mdb ++ cut).length < mdb.length) := by simp
+      have c4 : cut.length < 4 := hc
+      simp only [parseEntries, e2, e4, c1, if_false, if_true, take_app l2k, drop_app l2k, vk, c2,
+        List.take_left, List.drop_left, take_app l2m, drop_app l2m, vm, c3, hpos, hread, c4]
+
 end ImmuModel.Tx.ExportRTAux
 
 namespace ImmuModel.Tx
@@ -169,5 +335,65 @@ theorem parse_without_trailer_aux (x : Parsed) (hw : x.wf = true) (ht : x.trunca
   simp only [List.append_nil] at this
   simp only [e4, List.append_assoc]
   rw [this, ht]
+
+/-- **The parsing part of `ReplicateTx` never panics**, for every byte string. -/
+theorem parseExported_never_panics (b : Bytes) : parseExported b ≠ .error .panic :=
+  parseExported_noPanic b
+
+/-- A genuine export whose 3 trailer bytes are replaced by ONE byte is `ErrIllegalArguments`; replaced
+by a trailer of length 0 (`00 00`, whatever follows) it is `ErrIllegalTruncationArgument`.  (Both
+made `ReplicateTx` panic before the framing was repaired.) -/
+theorem parse_malformed_trailer_aux (x : Parsed) (hw : x.wf = true) (y : UInt8) (more : Bytes) :
+    ∃ hb, hdrBytes x.hdr = .ok hb ∧
+      parseExported (beN Gen.storeLszSize hb.length ++ hb ++ x.entries.flatMap entryBytes ++ [y]) =
+        .error .illegal ∧
+      parseExported (beN Gen.storeLszSize hb.length ++ hb ++ x.entries.flatMap entryBytes ++ 0 :: 0 :: more) =
+        .error .illegalTruncation := by
+  obtain ⟨hb, h1, _, h4, h2, hn, hes⟩ := parsed_wf_facts x hw
+  refine ⟨hb, h1, ?_, ?_⟩
+  · have := parseExported_frame_gen hb (x.entries.flatMap entryBytes ++ [y]) _ h4 h2
+    rw [hn, parseEntries_all x.entries hes] at this
+    simp only [e4, List.append_assoc]
+    rw [this]
+    rfl
+  · have := parseExported_frame_gen hb (x.entries.flatMap entryBytes ++ 0 :: 0 :: more) _ h4 h2
+    rw [hn, parseEntries_all x.entries hes] at this
+    simp only [e4, List.append_assoc]
+    rw [this]
+    have hl : ¬ (more.length + 1 + 1 < 2) := by omega
+    simp [parseTrailer, e2, beVal, hl]
+
+/-- A genuine export cut inside the value-length field of its LAST entry, that entry carrying
+kv-metadata (fewer than `lszSize` bytes after the metadata), is `ErrIllegalArguments`.  (The bound
+checked before the key does not account for the metadata: `Uint32(exportedTx[i:])` panicked.) -/
+theorem parse_cut_value_length_aux (x : Parsed) (hw : x.wf = true) (es : List PEntry) (e : PEntry) (m : KVMd)
+    (hx : x.entries = es ++ [e]) (hm : e.md = some m) (cut : Bytes) (hc : cut.length < Gen.storeLszSize) :
+    ∃ hb, hdrBytes x.hdr = .ok hb ∧
+      parseExported (beN Gen.storeLszSize hb.length ++ hb ++ es.flatMap entryBytes ++
+        (beN Gen.storeSszSize e.key.length ++ e.key ++
+         beN Gen.storeSszSize (kvmdBytes m).length ++ kvmdBytes m ++ cut)) = .error .illegal := by
+  obtain ⟨hb, h1, _, h4, h2, hn, hes⟩ := parsed_wf_facts x hw
+  refine ⟨hb, h1, ?_⟩
+  rw [hx] at hn hes
+  simp only [List.all_append, List.all_cons, List.all_nil, Bool.and_true, Bool.and_eq_true] at hes
+  obtain ⟨hes, he⟩ := hes
+  obtain ⟨key, md, payload⟩ := e
+  simp only at hm
+  subst hm
+  simp only [PEntry.wf, Bool.and_eq_true, decide_eq_true_eq] at he
+  obtain ⟨⟨hk, _⟩, hmd⟩ := he
+  obtain ⟨hml, hcase⟩ := kvmdBytesOpt_facts (some m)
+    (by simp only [Bool.and_eq_true, decide_eq_true_eq]; exact hmd)
+  rcases hcase with ⟨_, hnone⟩ | ⟨hpos, m', hsome, hread⟩
+  · cases hnone
+  · cases hsome
+    have hcut := parseEntries_cut_vLen 0 key (kvmdBytes m) cut m hk hml hpos hread hc
+    have := parseExported_frame_gen hb (es.flatMap entryBytes ++
+      (beN 2 key.length ++ (key ++ (beN 2 (kvmdBytes m).length ++ (kvmdBytes m ++ cut))))) _ h4 h2
+    rw [hn] at this
+    simp only [List.length_append, List.length_cons, List.length_nil] at this
+    rw [parseEntries_append es hes (0 + 1), hcut] at this
+    simp only [e2, e4, List.append_assoc]
+    exact this
 
 end ImmuModel.Tx
